@@ -651,3 +651,153 @@ Proof.
   intros H. destruct (sort_positions_total k cells H) as [p Hp].
   exists p. split; [exact Hp|]. eapply sort_positions_sorting; eauto.
 Qed.
+
+(* ====================================================================== *)
+(* 8. row ids: operations.sort on tables / columns refines the positional take *)
+(* ====================================================================== *)
+Lemma pos_of_nth ids d : NoDup ids -> forall i, (i < List.length ids)%nat -> pos_of (nth i ids d) ids = Some i.
+Proof.
+  induction 1 as [|a r Ha Hr IH]; intros i Hi; cbn [List.length] in Hi; [lia|].
+  destruct i as [|j]; cbn [nth pos_of].
+  - rewrite N.eqb_refl. reflexivity.
+  - destruct (N.eqb (nth j r d) a) eqn:E.
+    + apply N.eqb_eq in E. exfalso. apply Ha. rewrite <- E. apply nth_In. lia.
+    + rewrite IH by lia. reflexivity.
+Qed.
+Lemma map_nth_seq {A} (l : list A) d : map (fun i => nth i l d) (seq 0 (List.length l)) = l.
+Proof.
+  induction l as [|a l IH]; [reflexivity|]. cbn [List.length seq map nth]. f_equal.
+  rewrite <- seq_shift, map_map. exact IH.
+Qed.
+Lemma combine_map_r {A B C} (f : B -> C) (l : list A) (t : list B) :
+  combine l (map f t) = map (fun x => (fst x, f (snd x))) (combine l t).
+Proof. revert t; induction l as [|a l IH]; intros [|b t]; cbn; [reflexivity..|]. rewrite IH. reflexivity. Qed.
+
+Lemma sorted_tags_map {B C} k cells (f : B -> C) tags : kind_cells_ok k cells ->
+  sorted_tags k cells (map f tags) = option_map (map f) (sorted_tags k cells tags).
+Proof.
+  intros H. rewrite !sorted_tags_spec by assumption. cbn [option_map]. f_equal.
+  rewrite combine_map_r.
+  rewrite (isort_map (fst_lt sort_lt) (fst_lt sort_lt) (fun x : val * B => (fst x, f (snd x)))) by reflexivity.
+  rewrite !map_map. reflexivity.
+Qed.
+
+Lemma perm_range_lt p n : is_perm_of_range p n = true -> Forall (fun i => (i < n)%nat) p.
+Proof.
+  unfold is_perm_of_range. rewrite !andb_true_iff. intros [_ H]. rewrite forallb_forall in H.
+  apply Forall_forall. intros x Hx. apply Nat.ltb_lt, H, Hx.
+Qed.
+
+Lemma all_some_len {A} (l : list (option A)) r : all_some l = Some r -> List.length r = List.length l.
+Proof.
+  revert r; induction l as [|[a|] l IH]; intros r; cbn [all_some]; try discriminate.
+  - intros H; inversion H; reflexivity.
+  - destruct (all_some l) as [x|]; [|discriminate]. intros H; inversion H. cbn. f_equal. apply IH. reflexivity.
+Qed.
+Lemma take_pos_len {A} p (l : list A) xs : take_pos p l = Some xs -> List.length xs = List.length p.
+Proof. unfold take_pos. intros H. apply all_some_len in H. rewrite map_length in H. exact H. Qed.
+Lemma nodup_nat_sound l : nodup_nat l = true -> NoDup l.
+Proof.
+  induction l as [|x l IH]; cbn; [constructor|]. rewrite andb_true_iff, negb_true_iff. intros [H1 H2].
+  constructor; [|apply IH, H2]. intros Hin. apply mem_nat_In in Hin. congruence.
+Qed.
+Lemma perm_nodup_map (ids : list N) p : NoDup ids -> is_perm_of_range p (List.length ids) = true ->
+  NoDup (map (fun i => nth i ids 0%N) p).
+Proof.
+  intros Hnd Hp. assert (Hlt := perm_range_lt _ _ Hp).
+  unfold is_perm_of_range in Hp. rewrite !andb_true_iff in Hp. destruct Hp as [[_ Hn] _].
+  apply nodup_nat_sound in Hn. clear - Hnd Hn Hlt.
+  induction p as [|i p IH]; cbn [map]; [constructor|].
+  inversion Hn; inversion Hlt; subst. constructor; [|apply IH; assumption].
+  intros Hin. apply in_map_iff in Hin. destruct Hin as [j [Hj Hjin]].
+  rewrite Forall_forall in *. 
+  assert (j = i). { apply (proj1 (NoDup_nth ids 0%N) Hnd); auto. }
+  subst. contradiction.
+Qed.
+
+(* the alignment invariant of a column inside its table *)
+Definition col_aligned (ids : list N) (c : mcol) : Prop :=
+  crowid c = ids /\ List.length (cseq c) = List.length ids.
+
+Lemma sortedrowid_positions ids c : col_aligned ids c -> kind_cells_ok (ckind c) (cseq c) ->
+  exists p, sort_positions (ckind c) (cseq c) = Some p /\ is_sorting_perm (cseq c) p = true /\
+            sortedrowid c = Some (map (fun i => nth i ids 0%N) p).
+Proof.
+  intros [Hr Hl] Hk. destruct (sort_positions_ok _ _ Hk) as [p [Hp Hs]].
+  exists p. repeat split; auto.
+  unfold sortedrowid. rewrite Hr. rewrite <- (map_nth_seq ids 0%N) at 1.
+  rewrite sorted_tags_map by assumption. unfold sort_positions in Hp. rewrite <- Hl, Hp. reflexivity.
+Qed.
+
+(* _getrowidkey along the sorted ids = the positional take *)
+Lemma getrowidkey_take ids c p : NoDup ids -> col_aligned ids c -> Forall (fun i => (i < List.length ids)%nat) p ->
+  exists xs, take_pos p (cseq c) = Some xs /\
+    getrowidkey c (map (fun i => nth i ids 0%N) p) =
+      Some {| ckind := ckind c; crowid := map (fun i => nth i ids 0%N) p; cseq := xs |}.
+Proof.
+  intros Hnd [Hr Hl] Hp.
+  assert (HB : exists xs, take_pos p (cseq c) = Some xs).
+  { unfold take_pos. induction Hp as [|i p Hi Hp IH]; [eexists; reflexivity|].
+    destruct IH as [xs E1]. cbn [map all_some].
+    destruct (nth_error (cseq c) i) as [x|] eqn:E; [|apply nth_error_None in E; lia].
+    rewrite E1. eexists; reflexivity. }
+  assert (HA : all_some (map (cell_by_id c) (map (fun i => nth i ids 0%N) p)) = take_pos p (cseq c)).
+  { unfold take_pos. rewrite map_map. f_equal. apply map_ext_in. intros i Hi.
+    rewrite Forall_forall in Hp. unfold cell_by_id. rewrite Hr, pos_of_nth by auto. reflexivity. }
+  destruct HB as [xs Hx]. exists xs. split; [exact Hx|].
+  unfold getrowidkey. rewrite HA, Hx. reflexivity.
+Qed.
+
+(* sort(col) / sort(col, by=other): the values of col rearranged by a permutation that sorts the by-column,
+   under the row ids of the source (position-aligned, so it can be assigned back) *)
+Theorem sort_col_spec ids obj by_ : NoDup ids -> col_aligned ids obj -> col_aligned ids by_ ->
+  kind_cells_ok (ckind by_) (cseq by_) ->
+  exists p xs, sort_col obj by_ = Some {| ckind := ckind obj; crowid := ids; cseq := xs |} /\
+    sort_positions (ckind by_) (cseq by_) = Some p /\
+    is_sorting_perm (cseq by_) p = true /\ take_pos p (cseq obj) = Some xs.
+Proof.
+  intros Hnd Ho Hb Hk. destruct (sortedrowid_positions ids by_ Hb Hk) as [p [Hp [Hs Hsr]]].
+  assert (Hlt : Forall (fun i => (i < List.length ids)%nat) p).
+  { apply andb_true_iff in Hs. destruct Hs as [Hs _]. apply perm_range_lt in Hs.
+    destruct Hb as [_ Hl]. rewrite Hl in Hs. exact Hs. }
+  destruct (getrowidkey_take ids obj p Hnd Ho Hlt) as [xs [Hx Hg]].
+  exists p, xs. unfold sort_col. rewrite Hsr, Hg. cbn [ckind crowid cseq].
+  destruct Ho as [Hr _]. rewrite Hr. auto.
+Qed.
+
+(* sort(dm, by=col): every column is the positional take along one permutation p of the rows that sorts
+   the by-column; the new row ids are the old ones along p (each once); columns stay aligned *)
+Theorem sort_dm_spec d by_ : NoDup (drowid d) ->
+  Forall (fun nc => col_aligned (drowid d) (snd nc)) (dcols d) -> col_aligned (drowid d) by_ ->
+  kind_cells_ok (ckind by_) (cseq by_) ->
+  exists p r, sort_dm d by_ = Some r /\
+    sort_positions (ckind by_) (cseq by_) = Some p /\ is_sorting_perm (cseq by_) p = true /\
+    take_pos p (drowid d) = Some (drowid r) /\ NoDup (drowid r) /\
+    Forall2 (fun nc rc => fst rc = fst nc /\ ckind (snd rc) = ckind (snd nc) /\
+                          col_aligned (drowid r) (snd rc) /\
+                          take_pos p (cseq (snd nc)) = Some (cseq (snd rc))) (dcols d) (dcols r).
+Proof.
+  intros Hnd Hcols Hb Hk. set (ids := drowid d) in *.
+  destruct (sortedrowid_positions ids by_ Hb Hk) as [p [Hp [Hs Hsr]]].
+  assert (Hperm := Hs). apply andb_true_iff in Hperm. destruct Hperm as [Hperm _].
+  assert (Hlt : Forall (fun i => (i < List.length ids)%nat) p).
+  { apply perm_range_lt in Hperm. destruct Hb as [_ Hl]. rewrite Hl in Hperm. exact Hperm. }
+  set (sr := map (fun i => nth i ids 0%N) p) in *.
+  assert (Hcs : exists cs, all_some (map (fun nc : string * mcol =>
+              match getrowidkey (snd nc) sr with Some c => Some (fst nc, c) | None => None end) (dcols d)) = Some cs /\
+            Forall2 (fun nc rc => fst rc = fst nc /\ ckind (snd rc) = ckind (snd nc) /\
+                          col_aligned sr (snd rc) /\
+                          take_pos p (cseq (snd nc)) = Some (cseq (snd rc))) (dcols d) cs).
+  { induction Hcols as [|nc l Hc Hl IH]; [exists []; split; [reflexivity|constructor]|].
+    destruct IH as [cs [E F]].
+    destruct (getrowidkey_take ids (snd nc) p Hnd Hc Hlt) as [xs [Hx Hg]].
+    cbn [map all_some]. fold sr in Hg. rewrite Hg, E. eexists; split; [reflexivity|].
+    constructor; [|exact F]. cbn [fst snd ckind crowid cseq]. repeat split; auto.
+    cbn. apply take_pos_len in Hx. unfold sr. rewrite map_length. exact Hx. }
+  destruct Hcs as [cs [E F]].
+  exists p, {| drowid := sr; dcols := cs |}. unfold sort_dm, selectrowid. rewrite Hsr. fold sr. rewrite E.
+  cbn [drowid dcols]. repeat split; auto.
+  - unfold take_pos. rewrite <- (all_some_map_Some sr). f_equal. unfold sr. rewrite map_map. apply map_ext_in.
+    intros i Hi. rewrite Forall_forall in Hlt. apply nth_error_nth'. apply Hlt, Hi.
+  - unfold sr. apply perm_nodup_map; [assumption|]. destruct Hb as [_ Hl]. rewrite <- Hl. exact Hperm.
+Qed.
